@@ -377,6 +377,18 @@ def run(ctx):
     from .C05 import check_feed
     ctx.rule("C07-FEED", "on every path into the kernel - including fall-back paths - prior samples are packed with units=<the helper's internal units> (shared with C05-FEED).")
     check_feed(_Relabel(ctx, {"C05-FEED": "C07-FEED"}))
+    from .C17 import check_wrap
+    ctx.rule("C07-WRAP", "wrap_K shifts omega by pi expressed in omega's OWN unit, on the stored column (not on a converted copy): samples kept in degrees stay physically "
+                         "equal (shared with C17-WRAP).")
+    check_wrap(_Relabel(ctx, {"C17-WRAP": "C07-WRAP"}))
+    from . import C11 as _c11
+    ctx.rule("C07-MCMC", "setup_mcmc converts every prior variable to the unit the model is written in and hands back the initial point in the PRIOR's units "
+                         "(shared with C11-UNIT / C11-INIT).")
+    _fn = ctx.prog.func(_c11.TJ, _c11.Q, "C07-MCMC")
+    _X = _c11.Ctxt(_fn)
+    _rl = _Relabel(ctx, {"C11-UNIT": "C07-MCMC", "C11-INIT": "C07-MCMC"})
+    if _c11.check_unit(_rl, _fn, _X):
+        _c11.check_init(_rl, _fn, _X)
     from .C15 import check_ivar
     ctx.rule("C07-IVAR", "inverse variances are formed from the error quantity itself, so they scale with the square of the unit; nothing unit-less is mixed into the stripped "
                          "variance (shared with C15-IVAR).")
